@@ -254,6 +254,8 @@ CasesOf(T, n) ==
       b == n * 100
   IN <<Rec(b, b, "min", base, NoVec, NoVec, "")>>
      \o <<Rec(b + 1, b, "paren", paren, NoVec, NoVec, "")>>
+     \* the same without the pair around the whole query: (A) AND (B) begins and ends with parentheses that do not belong together
+     \o <<Rec(b + 11, b, "paren", Wrap(T, 1, <<>>, {}, TRUE, FALSE), NoVec, NoVec, "inner")>>
      \o <<Rec(b + 2, b, "ws", base, WsVec(base.toks, "tight"), CaseVec(base.toks, "tight"), "tight")>>
      \o [i \in 1..WsPerTree |-> Rec(b + 2 + i, b, "ws", base, WsVec(base.toks, "rand"), CaseVec(base.toks, "rand"), "rand")]
      \o (LET js == SetToSeq(jreal) IN [i \in 1..Len(js) |-> Rec(b + 20 + i, b, "juxt", js[i], NoVec, NoVec, "")])
